@@ -37,6 +37,11 @@ class Skip(Exception):
     pass
 
 
+class Consumed(Exception):
+    """Python itself evaluated an operator while the tree was being spelled (e.g. 's' % this.a: str.__mod__ takes the placeholder
+    for a mapping and returns 's'): no expression object for that sub-tree exists, at any depth"""
+
+
 def native(t, env):
     """Independent evaluator. env: dict with 'this' (nested dict) / 'obj' / 'list'."""
     k = t[0]
@@ -115,7 +120,11 @@ def build(t, P):
         b, be = build(t[3], P)
         if not (ae or be):
             raise Skip()
-        return BINOPS[t[1]](a, b), True
+        res = BINOPS[t[1]](a, b)
+        from construct.expr import ExprMixin
+        if not isinstance(res, ExprMixin):
+            raise Consumed()
+        return res, True
     raise ValueError(t)
 
 
@@ -232,6 +241,9 @@ def check_tree(ctx, t, ctxd, P, mode_lib=False, report=True):
             e, ise = build(t, P)
         except Skip:
             raise
+        except Consumed:
+            ctx.count("python_consumed_operator")
+            return []
         except Exception:
             # Python itself consumed an operator while the tree was being spelled
             # (e.g. -('s' % this.a)): no expression object exists
